@@ -54,6 +54,23 @@ structure Mapping where
   defDz : List (Sub × Rat)
   deriving Repr, Inhabited
 
+/-- an OpenRGB colour -/
+structure RGB where
+  r : Nat := 0
+  g : Nat := 0
+  b : Nat := 0
+  deriving DecidableEq, Repr, Inhabited
+
+/-- `config.Colors` (the `Other` colour is never used by the LED loop) -/
+structure Colors where
+  white : RGB := {}
+  black : RGB := {}
+  c : RGB := {}
+  unavailable : RGB := {}
+  active : RGB := {}
+  activeExternal : RGB := {}
+  deriving DecidableEq, Repr, Inhabited
+
 structure Config where
   maps : List Mapping
   actions : List (Code × Action)
@@ -66,6 +83,7 @@ structure Config where
   vel : Int
   /-- `InputDevice.AbsInfos[node][code] = (min, max)` -/
   axes : List ((String × Code) × (Int × Int))
+  colors : Colors := {}
   deriving Repr, Inhabited
 
 /-- one emitted thing -/
